@@ -264,7 +264,12 @@ class RelativeBranch(Branch):
 
     def execute(self, vm):
         if self.should(vm):
-            vm.pc += self.args[0]
+            # The offset is an 8-bit two's-complement field, so values above 127
+            # denote backward jumps (as for SETLO).
+            offset = self.args[0]
+            if offset > 127:
+                offset -= 256
+            vm.pc += offset
         else:
             vm.pc += 1
 
@@ -926,8 +931,11 @@ class BRR(RelativeBranch):
     BITV = "0000 0000 aaaa aaaa"
 
     def execute(self, vm):
-        if self.args[0] != 0:
-            vm.pc += self.args[0]
+        offset = self.args[0]
+        if offset > 127:
+            offset -= 256
+        if offset != 0:
+            vm.pc += offset
         else:
             vm.halted = True
 
